@@ -145,6 +145,9 @@ def rich_lib(names, cps, i):
 def explore(ctx):
     import ufo2ft
     filter_section(ctx)
+    # (lib filters of a designspace build that reach glyphs through the interpolated layers, after a stale / pruning / absent skip list)
+    from harness.props.c14 import designspace_prefilter_section
+    designspace_prefilter_section(ctx)
     rng = ctx.subrng("sources")
     # ---------------- generated static fonts
     for i in range(ctx.budget(24, 160)):
@@ -260,6 +263,13 @@ def explore(ctx):
                 f.lib[FILTERS_KEY] = [{"name": "propagateAnchors", "pre": True}]
         if rng.random() < 0.3:
             ds.lib["public.skipExportGlyphs"] = [masters[0]["glyphs"][-1]["name"]]
+        if i % 4 == 1 and not (fn.startswith("compileVariable") and opts.get("variableFeatures", True)):
+            # a STALE skip list (it names no glyph of any master, so pruning reports nothing) and, as the first filter that does
+            # modify something, an anchor propagation that reaches glyphs through the interpolated layers
+            ds.lib["public.skipExportGlyphs"] = ["ghost.glyph"]
+            for f in fonts:
+                f.lib[FILTERS_KEY] = [{"name": "propagateAnchors", "pre": True}]
+            ctx.klass("family: stale skip list + propagateAnchors")
         if rng.random() < 0.3 and "TTF" in fn:
             opts["flattenComponents"] = True
         case = {"function": fn, "options": jsonable(opts), "lib": lib, "masters": n, "font": jsonable(masters[0])}
